@@ -243,7 +243,8 @@ def run_one(rec, variant):
         diffs.append('triple')
     # the non-check endogenous variable W: only the offset copy may change it, and only at t
     src = tpos + cfg['offset']
-    applied = cfg['offset'] != 0 and cfg['min'] <= cfg['max'] and 0 <= src < L
+    feasible = tpos - cfg.get('lags', 0) >= 0 and tpos + cfg.get('leads', 0) < L
+    applied = cfg['offset'] != 0 and cfg['min'] <= cfg['max'] and feasible and 0 <= src < L
     exp_w = before['W'][src] if applied else before['W'][tpos]
     if not same(after['W'][tpos], exp_w):
         diffs.append('noncheck_endogenous')
